@@ -8,20 +8,12 @@
    reports the same sequence is observed on the implementation and judged by the flag `c_stable` in C02.Run.spec_ok. *)
 From Coq Require Import ZArith List Bool Lia Arith Permutation.
 Import ListNotations.
-From QCE Require Import Base.Prelude Core.Model Core.Run Core.BfsProofs Core.BfsWf.
+From QCE Require Import Base.Prelude Core.Model Core.Run Core.BfsProofs Core.BfsWf C02.Run.
 From Gen Require Import Ident Classes.
 Local Open Scope nat_scope.
 
 (* ------------------------------------------------------------------ the leaves a program adds *)
-(* sub-circuit bodies expanded in place, once (NOT multiplied by the repetition count) *)
-Fixpoint cmd_leaves (c : cmd) : list leaf :=
-  match c with
-  | CAdd l _ => [l]
-  | CDangling l _ => [l]
-  | CSub _ body => flat_map cmd_leaves body
-  end.
-Definition prog_leaves (p : list cmd) : list leaf := flat_map cmd_leaves p.
-
+(* cmd_leaves / prog_leaves (sub-circuit bodies expanded in place, once) are defined in C02.Run, shared with spec_ok *)
 (* the same, with the per-class copy() applied once per nesting level (add(sub-circuit) stores a copy) *)
 Fixpoint cmd_built_leaves (c : cmd) : list leaf :=
   match c with
@@ -554,3 +546,7 @@ Qed.
 (* holds for the source as it is now; fails to check (by design) if a class' copy() stops passing on these fields *)
 Example current_table_faithful : table_faithful = true.
 Proof. vm_compute. reflexivity. Qed.
+
+Corollary listing_leaves_perm_current env p : prog_ok env p ->
+  Permutation (map e_leaf (listing env (run_prog env p))) (prog_leaves p).
+Proof. apply listing_leaves_perm_table. exact current_table_faithful. Qed.
